@@ -258,3 +258,125 @@ def check_propagator_object(ctx):
         ctx.count('regenerated object vs replaced attributes/propagator/%s/%s' % (METHODS[method], TYPES[ptype]))
         ctx.traces += 1
         compare_calls(ctx, 'propagator', 'configuration %s, calls %s' % (line.split(' ')[1:10], calls), impl, model)
+
+
+# ---------------------------------------------------------------------------------------------------------------- the multiplane losses
+def check_loss_objects(ctx):
+    """multiplane_loss / perceptual_multiplane_loss: attribute names and the order `__init__` assigns them, per call which attributes are replaced /
+    written in place and what `get_targets` hands out, against the regenerated step functions; monitors: `get_targets` of an object with a history
+    equals that of a new object, tensors handed out earlier keep their values, overwriting what was handed out changes nothing"""
+    if not ctx.drv_ok:
+        return
+    import odak.learn.wave as LW
+    rng = ctx.rng
+    gen = lambda s: torch.Generator().manual_seed(s)
+    for cls_id, cls_name in ((0, 'multiplane_loss'), (1, 'perceptual_multiplane_loss')):
+        fields = ctx.model.ask(['glo_fields %d' % cls_id])[0].split(',')
+        for it in range(ctx.n(3, 12)):
+            defocus, planes, bsize, psnr = rng.random() < 0.5, rng.randint(1, 4), rng.choice([3, 4, 5]), (cls_id == 1 and rng.random() < 0.5)
+            img0 = torch.rand(3, 16, 16, generator=gen(11 + it))
+            dep0 = torch.rand(16, 16, generator=gen(12 + it))
+
+            def build():
+                kw = dict(number_of_planes=planes, target_blur_size=bsize, blur_ratio=0.25, scheme='defocus' if defocus else 'naive')
+                if cls_id == 0:
+                    return LW.multiplane_loss(img0.clone(), dep0.clone(), **kw)
+                return LW.perceptual_multiplane_loss(img0.clone(), dep0.clone(), additional_loss_weights={'psnr': 1.} if psnr else {}, **kw)
+            try:
+                obj = build()
+            except Exception as e:
+                ctx.count('loss object/%s constructor raised %s' % (cls_name, type(e).__name__))
+                continue
+            names = list(vars(obj))
+            if set(names) != set(fields if (psnr or cls_id == 0) else [f for f in fields if f not in ('cvvdp', 'fvvdp', 'lpips', 'psnr', 'ssim', 'msssim')]) \
+                    and not (cls_id == 1 and set(names) <= set(fields) and set(fields) - set(names) <= {'cvvdp', 'fvvdp', 'lpips', 'psnr', 'ssim', 'msssim'}):
+                ctx.alarm('correspondence', '%s: a constructed object has the attributes %s, the regenerated structure the fields %s' % (cls_name, sorted(names), sorted(fields)))
+                return
+            calls, parts = [], []
+            for k in range(rng.randint(*ctx.n((3, 5), (3, 8)))):
+                if rng.random() < 0.55:
+                    calls.append(('get_targets', rng.random() < 0.6))           # .. and afterwards overwrite what was handed out?
+                    parts.append('0')
+                else:
+                    given = rng.random() < 0.5
+                    pl = rng.randrange(planes)
+                    calls.append(('call', given, pl, 30 + k))
+                    parts.append('1 %d %d %d' % (int(given), pl, 30 + k))
+            line = 'glo_seq %d %d %d %d %d %d %s' % (cls_id, int(defocus), planes, bsize, int(psnr), len(calls), ' '.join(parts))
+            out = ctx.model.ask([line])[0]
+            init_log, _, rest = out.partition('|')
+            if init_log == 'RAISE':
+                ctx.alarm('correspondence', '%s: the regenerated __init__ raises for a configuration the implementation accepts (%s)' % (cls_name, line))
+                continue
+            model = []
+            for c in (rest.split('|') if rest else []):
+                if c == 'RAISE':
+                    model.append(None)
+                    continue
+                log, _, ret = c.partition(';')
+                nm = [] if log in ('-', '') else log.split(',')
+                model.append((set(n for n in nm if not n.endswith('[]')), set(n[:-2] for n in nm if n.endswith('[]')), ret.split(',')))
+            order = first_occurrences([n for n in init_log.split(',') if not n.endswith('[]')])
+            if order != names:
+                ctx.alarm('correspondence', '%s.__init__ first assigns its attributes in the order %s, the regenerated __init__ in the order %s' % (cls_name, names, order))
+            rec = {'class': cls_name, 'planes': planes, 'defocus': defocus, 'blur_size': bsize, 'calls': [list(map(lambda z: int(z) if isinstance(z, bool) else z, c)) for c in calls],
+                   'seed': ctx.seed}
+            ref_targets = [t.detach().clone() for t in build().get_targets()]
+            handed = []
+            ok = True
+            for k, c in enumerate(calls):
+                before = snapshot(obj)
+                try:
+                    if c[0] == 'get_targets':
+                        ret = obj.get_targets()
+                    else:
+                        image = torch.rand(3, 16, 16, generator=gen(c[3]))
+                        target = torch.rand(3, 16, 16, generator=gen(c[3] + 1))
+                        ret = obj(image, target, plane_id=c[2] if c[1] else None)
+                        fresh = build()(image, target, plane_id=c[2] if c[1] else None)
+                except Exception as e:
+                    got = None
+                    ctx.count('loss object/%s call raised %s' % (cls_name, type(e).__name__))
+                    if k < len(model) and model[k] is not None:
+                        ctx.alarm('correspondence', '%s: call %d (%s) raises %s in the implementation and returns in the regenerated step function (%s)'
+                                  % (cls_name, k, c[0], type(e).__name__, line))
+                    break
+                after = snapshot(obj)
+                rep, inp = observe(before, after)
+                rets = list(ret) if isinstance(ret, tuple) else [ret]
+                kinds = [classify(t, after, [h_[0] for h_ in handed]) for t in rets]
+                if k >= len(model) or model[k] is None:
+                    ctx.alarm('correspondence', '%s: call %d returns in the implementation, the regenerated step function %s (%s)'
+                              % (cls_name, k, 'raises' if k < len(model) else 'stops', line))
+                    break
+                mo = model[k]
+                if mo[0] != rep or mo[1] != inp or len(mo[2]) != len(kinds) or not all(same_kind(a_, b_) for a_, b_ in zip(mo[2], kinds)):
+                    ctx.alarm('correspondence', '%s (%s): call %d (%s) replaces the attributes %s, writes %s in place and returns %s; the regenerated step function '
+                              'stores %s, writes %s in place and returns %s' % (cls_name, line, k, c[0], sorted(rep), sorted(inp), kinds, sorted(mo[0]), sorted(mo[1]), mo[2]))
+                    ok = False
+                    break
+                if c[0] == 'get_targets':
+                    # monitor: what an object with a history hands out is what a new object hands out
+                    if not all(close(a_, b_, 1e-6) for a_, b_ in zip(rets, ref_targets)):
+                        ctx.violation('%s.get_targets: call %d of the sequence %s returns targets that differ from those of a newly built object'
+                                      % (cls_name, k, [c_[0] for c_ in calls]), dict(rec, failing_call=k), {'what': 'get_targets_history', 'fn': cls_name})
+                        break
+                    for t in rets:
+                        handed.append((t, t.detach().clone(), k))
+                    if c[1]:
+                        for t in rets:                                   # the caller's copy is the caller's: scale and clear it
+                            if t.numel():
+                                t.mul_(0.5).add_(1.0)
+                        handed = [(t, t.detach().clone(), k_) for (t, _, k_) in handed]
+                elif not close(ret if not isinstance(ret, tuple) else ret[0], fresh if not isinstance(fresh, tuple) else fresh[0], 1e-5):
+                    ctx.violation('%s.__call__: call %d of the sequence %s returns a loss that differs from that of a newly built object'
+                                  % (cls_name, k, [c_[0] for c_ in calls]), dict(rec, failing_call=k), {'what': 'history', 'fn': cls_name})
+                    break
+            for (t, copy, k) in handed:
+                if not close(t, copy, 0.0):
+                    ctx.violation('%s: a tensor handed out by get_targets (call %d of %s) was changed by a later call' % (cls_name, k, [c_[0] for c_ in calls]),
+                                  dict(rec, failing_call=k), {'what': 'returned_buffer_overwritten', 'fn': cls_name})
+                    break
+            ctx.case(('glo', cls_id, defocus, planes, bsize, psnr, tuple(c[0] for c in calls)), True, rec if it < 1 else None)
+            ctx.count('regenerated object vs replaced attributes/%s' % cls_name)
+            ctx.traces += 1
